@@ -108,7 +108,7 @@ type c13Spec struct {
 	Form string   `json:"form"` // layout, lex, string, numeral, glue, keyword
 	Seed int      `json:"seed,omitempty"`
 	Devs []c13Dev `json:"devs,omitempty"`
-	Text string   `json:"text,omitempty"`
+	Text fw.Text  `json:"text,omitempty"`
 	Q    string   `json:"quote,omitempty"`
 }
 
@@ -421,7 +421,7 @@ func init() {
 			case u < ns*layoutParts+nt:
 				a := c01Tokens[u-ns*layoutParts]
 				lex := func(text string) {
-					s := c13Spec{Form: "lex", Text: text}
+					s := c13Spec{Form: "lex", Text: fw.Text(text)}
 					c.Do(func() any { return s }, func() *fw.Violation { return c13LexCheck(c, text) })
 				}
 				lex(a)
@@ -438,10 +438,10 @@ func init() {
 				var rec func(cur string, n int)
 				rec = func(cur string, n int) {
 					for _, q := range []byte{'"', '\''} {
-						s := c13Spec{Form: "string", Text: cur, Q: string(q)}
+						s := c13Spec{Form: "string", Text: fw.Text(cur), Q: string(q)}
 						c.Do(func() any { return s }, func() *fw.Violation { return c13StringCheck(c, cur, q) })
 						for pos := range c13StrPositions {
-							sp := c13Spec{Form: "stringpos", Text: cur, Q: string(q), Seed: pos}
+							sp := c13Spec{Form: "stringpos", Text: fw.Text(cur), Q: string(q), Seed: pos}
 							c.Do(func() any { return sp }, func() *fw.Violation { return c13StringPosCheck(c, cur, q, sp.Seed) })
 						}
 					}
@@ -483,7 +483,7 @@ func init() {
 					}
 				}
 				for _, n := range nums {
-					s := c13Spec{Form: "numeral", Text: n}
+					s := c13Spec{Form: "numeral", Text: fw.Text(n)}
 					c.Do(func() any { return s }, func() *fw.Violation { return c13NumeralCheck(c, n) })
 				}
 			case u == ns*layoutParts+nt+2:
@@ -501,7 +501,7 @@ func init() {
 				for _, a := range []string{"3", "1.5", "10", "0", "7"} {
 					for _, b := range []string{"1", "0.5", "2", "3"} {
 						for _, op := range c13GlueOps {
-							s := c13Spec{Form: "glue", Text: a + " " + op + " " + b}
+							s := c13Spec{Form: "glue", Text: fw.Text(a + " " + op + " " + b)}
 							c.Do(func() any { return s }, func() *fw.Violation { return c13GlueCheck(c, a, op, b) })
 						}
 					}
@@ -512,7 +512,7 @@ func init() {
 						if IsKeyword(name) {
 							continue
 						}
-						s := c13Spec{Form: "keyword", Text: name}
+						s := c13Spec{Form: "keyword", Text: fw.Text(name)}
 						c.Do(func() any { return s }, func() *fw.Violation { return c13KeywordCheck(c, name) })
 					}
 				}
@@ -527,22 +527,22 @@ func init() {
 			case "layout":
 				return c13LayoutCheck(c, s.Seed, s.Devs)
 			case "lex":
-				return c13LexCheck(c, s.Text)
+				return c13LexCheck(c, string(s.Text))
 			case "string":
-				return c13StringCheck(c, s.Text, s.Q[0])
+				return c13StringCheck(c, string(s.Text), s.Q[0])
 			case "stringpos":
-				return c13StringPosCheck(c, s.Text, s.Q[0], s.Seed)
+				return c13StringPosCheck(c, string(s.Text), s.Q[0], s.Seed)
 			case "printcomma":
 				return c13PrintComma(c, s.Seed)
 			case "long":
 				return c13LongCheck(c, s.Seed, s.Q)
 			case "numeral":
-				return c13NumeralCheck(c, s.Text)
+				return c13NumeralCheck(c, string(s.Text))
 			case "glue":
-				f := strings.Fields(s.Text)
+				f := strings.Fields(string(s.Text))
 				return c13GlueCheck(c, f[0], f[1], f[2])
 			}
-			return c13KeywordCheck(c, s.Text)
+			return c13KeywordCheck(c, string(s.Text))
 		},
 	})
 }
